@@ -91,6 +91,23 @@ def mutations(src):
             out.append((j, "flip", "%d: %r flipped" % (ln, n.value)))
         elif isinstance(n, ast.Attribute) and n.attr in ATTR:
             out.append((j, "attr", "%d: .%s -> .%s" % (ln, n.attr, ATTR[n.attr])))
+        if isinstance(n, ast.If) and not (isinstance(n.test, ast.Name) and n.test.id == "PY2"):
+            out.append((j, "iftrue", "%d: if %s -> if True" % (ln, ast.unparse(n.test)[:40])))
+            out.append((j, "iffalse", "%d: if %s -> if False" % (ln, ast.unparse(n.test)[:40])))
+            if n.orelse:
+                out.append((j, "noelse", "%d: else branch of if %s dropped" % (ln, ast.unparse(n.test)[:40])))
+        if isinstance(n, ast.Call) and len(n.args) >= 2 and not any(isinstance(a_, ast.Starred) for a_ in n.args):
+            out.append((j, "argswap", "%d: first two arguments of %s swapped" % (ln, ast.unparse(n.func)[:40])))
+        for fld in ("body", "orelse", "finalbody"):
+            blk = getattr(n, fld, None)
+            if isinstance(blk, list) and not isinstance(n, ast.Module):
+                for k in range(len(blk) - 1):
+                    a_, b_ = blk[k], blk[k + 1]
+                    simple = (ast.Expr, ast.Assign, ast.AugAssign, ast.Delete)
+                    if isinstance(a_, simple) and isinstance(b_, simple) and not _skipped(a_.value if isinstance(a_, ast.Expr) else a_, par) \
+                            and not _skipped(b_.value if isinstance(b_, ast.Expr) else b_, par) \
+                            and not (isinstance(a_, ast.Expr) and isinstance(a_.value, ast.Constant)):
+                        out.append((j, "swap:%s:%d" % (fld, k), "%d: statements swapped: %s <-> %s" % (getattr(a_, "lineno", 0), ast.unparse(a_)[:40], ast.unparse(b_)[:40])))
         if isinstance(n, ast.stmt) and not isinstance(par.get(n), ast.Module):
             if isinstance(n, ast.Expr) and isinstance(n.value, ast.Call):
                 out.append((j, "del", "%d: statement %s deleted" % (ln, ast.unparse(n)[:60])))
@@ -138,6 +155,19 @@ def apply(src, j, kind):
                 v[[i for i, x in enumerate(v) if x is n][0]] = ast.Pass()
     elif kind == "retnone":
         n.value = None
+    elif kind == "iftrue":
+        n.test = ast.Constant(value=True)
+    elif kind == "iffalse":
+        n.test = ast.Constant(value=False)
+    elif kind == "noelse":
+        n.orelse = []
+    elif kind == "argswap":
+        n.args[0], n.args[1] = n.args[1], n.args[0]
+    elif kind.startswith("swap:"):
+        _, fld, k = kind.split(":")
+        blk = getattr(n, fld)
+        k = int(k)
+        blk[k], blk[k + 1] = blk[k + 1], blk[k]
     ast.fix_missing_locations(tree)
     return ast.unparse(tree) + "\n"
 
